@@ -13,6 +13,12 @@ LEVEL_TEXT = ("Static analysis of /repo's current source (go/packages + go/ssa, 
 
 # id -> (technique, what is decided, design_ref)
 CLAIMED = {
+    "C11": ("key-agreement of all connection-table operations, provenance of (address, payload, conn), dominance/edge rules for registration, call-graph single-dispatcher rule, taint of the reused receive buffer, plus the packet-buffer integrity rules of C06",
+            "table keyed consistently by the remote address; datagram written to the conn returned for its own address; same read/batch index; registration only on not-found + accepting + filter-true + enqueue-success edges under connLock; one dispatcher goroutine; receive buffer not retained; Close unregisters its own key; no routing cache; buffer integrity",
+            "DESIGN.md section 3 C11"),
+    "C12": ("who-may-call + dominance + lockset rules over the WaitGroup reference count, sync.Once closures, backlog enqueue/drain and close sites",
+            "single socket close site after Wait; Done only once-protected or undoing the same path's Add; Add only in the constructor or under connLock on the accepting edge before the enqueue in one critical section; drained/refused/accepted conns accounted; Conn.Close closes the buffer; listener Close ordering (flag, doneCh, lock, drain, own Done); Accept fails after Close",
+            "DESIGN.md section 3 C12"),
     "C06": ("taint (caller-owned slice), guard dominance, never-after reachability, header byte-order agreement, wrap-test-after-advance must-pass rule, path-sensitive linear normal forms of the ring helpers (available/size/grow)",
             "copy-on-write; size/closed guards dominate all stores; refusal store-free; growth re-linearises into a fresh strictly larger array; header written/read with the same byte order; head advanced by the decoded length; ErrShortBuffer exactly on copied<length; fresh wrap test after every advance; count pairing; one byte kept free",
             "DESIGN.md section 3 C06"),
